@@ -34,9 +34,13 @@ theorem keeps_cRead (i n : Nat) : Keeps i (cRead n) := by
   split at h <;> try contradiction
   simp only [Option.some.injEq] at h; subst h; exact ⟨rfl, id, fun _ hq _ => hq⟩
 
-theorem keeps_cReadErr (i : Nat) (b f : Bool) : Keeps i (cReadErr b f) := by
+theorem keeps_cReadErr (i : Nat) (p b f : Bool) : Keeps i (cReadErr p b f) := by
   intro k k' h; unfold cReadErr at h; split at h <;> try contradiction
   split at h <;> (simp only [Option.some.injEq] at h; subst h; exact ⟨rfl, id, fun _ hq _ => hq⟩)
+
+theorem keeps_cDrainTick (i : Nat) : Keeps i cDrainTick := by
+  intro k k' h; unfold cDrainTick at h; split at h <;> try contradiction
+  simp only [Option.some.injEq] at h; subst h; exact ⟨rfl, id, fun _ hq _ => hq⟩
 
 theorem keeps_cAge (i : Nat) : Keeps i cAge := by
   intro k k' h; unfold cAge at h
@@ -200,8 +204,8 @@ theorem notifyAll_get {s : State} {c : Nat} {k : Conn} (hk : s.conns[c]? = some 
   simp [notifyAll, List.getElem?_map, hk]
 
 theorem cNotify_keeps (k : Conn) : (cNotify k).reqs = k.reqs ∧ (cNotify k).srvClosed = k.srvClosed ∧
-    (cNotify k).registered = k.registered := by
-  unfold cNotify; split <;> exact ⟨rfl, rfl, rfl⟩
+    (cNotify k).registered = k.registered :=
+  ⟨(cNotify_keeps' k).1, (cNotify_keeps' k).2.1, (cNotify_keeps' k).2.2.1⟩
 
 theorem dropped_notifyAll {s : State} {c i : Nat} (hd : Dropped s c i) : Dropped (notifyAll s) c i := by
   obtain ⟨k, q, hck, hq, hqs, hcl, hreg⟩ := hd.there
@@ -210,9 +214,9 @@ theorem dropped_notifyAll {s : State} {c i : Nat} (hd : Dropped s c i) : Dropped
     ⟨cNotify k, q, notifyAll_get hck, by rw [h1]; exact hq, hqs, by rw [h2]; exact hcl, by rw [h3]; exact hreg⟩,
     hd.pass, hd.notRet, hd.apcPast⟩
 
-theorem dropped_ciBegin {s : State} {c i : Nat} (hd : Dropped s c i) :
+theorem dropped_ciBegin {s : State} {c i : Nat} {b : Bool} (hd : Dropped s c i) :
     Dropped { s with pass := some { todo := registeredIds s, all := true, holding := none },
-                     lastPass := registeredIds s } c i := by
+                     lastPass := registeredIds s, firstPoll := true, fpNotified := b } c i := by
   obtain ⟨k, q, hck, hq, hqs, hcl, hreg⟩ := hd.there
   refine ⟨hd.stopped, hd.noHeld, hd.there, ?_, hd.notRet, hd.apcPast⟩
   intro p hp
@@ -241,7 +245,7 @@ theorem dropped_step {cfg : Cfg} {n qc : Nat} (hpool : cfg.pool = some (n, qc)) 
   | register c' => exact dropped_updConn (keeps_cRegister i) hd h
   | stamp c' => exact dropped_updConn (keeps_cStamp i) hd h
   | read c' m => exact dropped_updConn (keeps_cRead i m) hd h
-  | readErr c' f => exact dropped_updConn (keeps_cReadErr i _ f) hd h
+  | readErr c' f => exact dropped_updConn (keeps_cReadErr i _ _ f) hd h
   | age c' => exact dropped_updConn (keeps_cAge i) hd h
   | dispatch c' => exact dropped_updConn (keeps_cDispatch i _) hd h
   | enqueue c' =>
@@ -289,6 +293,11 @@ theorem dropped_step {cfg : Cfg} {n qc : Nat} (hpool : cfg.pool = some (n, qc)) 
   | write c' j => exact dropped_updConn (keeps_cWrite i j) hd h
   | skip c' j => exact dropped_updConn (keeps_cSkip i _ j) hd h
   | dec c' j => exact dropped_updConn (keeps_cDec i j) hd h
+  | drainTick c' =>
+    simp only [step] at h
+    split at h <;> try contradiction
+    split at h <;> try contradiction
+    exact dropped_updConn (keeps_cDrainTick i) hd h
   | drainClose c' =>
     by_cases hcc : c' = c
     · subst hcc
